@@ -283,3 +283,102 @@ func Show(v refeval.Value) string {
 	}
 	return fmt.Sprintf("%v", v)
 }
+
+// ---- R-ref: an independent store.Cursor implementation ----
+
+// RefCursor satisfies the documented Cursor contract by construction:
+// positions are unique and ordered but not contiguous, every call returns fresh
+// slices, node values implement exactly one node interface. It follows the one
+// convention the contract leaves unstated and the evaluator relies on: Parent()
+// of the root returns the root (a nil parent makes lang() from the root node
+// fail; whether that is required of a user-supplied store is not specified, so
+// no verdict depends on it). Running the evaluator on
+// it (instead of store.InMemory) separates evaluator behaviour from store
+// behaviour and exercises the evaluator against a user-supplied store.
+type RefCursor struct {
+	pos      int
+	node     node.Node
+	parent   *RefCursor
+	ns       []*RefCursor
+	attrs    []*RefCursor
+	children []*RefCursor
+}
+
+type refRoot struct{}
+
+func (c *RefCursor) Pos() int        { return c.pos }
+func (c *RefCursor) Node() node.Node { return c.node }
+func (c *RefCursor) Parent() store.Cursor {
+	if c.parent == nil {
+		return c
+	}
+	return c.parent
+}
+func conv(in []*RefCursor) []store.Cursor {
+	out := make([]store.Cursor, len(in))
+	for i, x := range in {
+		out[i] = x
+	}
+	return out
+}
+func (c *RefCursor) Namespaces() []store.Cursor { return conv(c.ns) }
+func (c *RefCursor) Attributes() []store.Cursor { return conv(c.attrs) }
+func (c *RefCursor) Children() []store.Cursor   { return conv(c.children) }
+
+// FromRef builds the R-ref realisation of a finished document.
+func FromRef(d *adoc.Doc) (*Map, error) {
+	var mk func(a *adoc.Node, parent *RefCursor) *RefCursor
+	mk = func(a *adoc.Node, parent *RefCursor) *RefCursor {
+		c := &RefCursor{pos: a.Ord * 7, parent: parent}
+		switch a.Kind {
+		case adoc.Root:
+			c.node = refRoot{}
+		case adoc.Elem:
+			c.node = adoc.EElem{S: a.Space, L: a.Local}
+		case adoc.Attr:
+			c.node = adoc.EAttr{S: a.Space, L: a.Local, V: a.Value}
+		case adoc.NS:
+			c.node = adoc.ENS{P: a.Local, V: a.Value}
+		case adoc.Text:
+			c.node = adoc.EText{V: a.Value}
+		case adoc.Comment:
+			c.node = adoc.EComment{V: a.Value}
+		case adoc.PI:
+			c.node = adoc.EPI{T: a.Local, V: a.Value}
+		}
+		for _, x := range a.NSNodes {
+			c.ns = append(c.ns, mk(x, c))
+		}
+		for _, x := range a.Attrs {
+			c.attrs = append(c.attrs, mk(x, c))
+		}
+		for _, x := range a.Children {
+			c.children = append(c.children, mk(x, c))
+		}
+		return c
+	}
+	d.Index()
+	root := mk(d.Root, nil)
+	// identity map: RefCursor lists are rebuilt on every call, so map by walking the pointers directly
+	m := &Map{Doc: d, Root: root, ToA: map[store.Cursor]*adoc.Node{}, ToC: map[*adoc.Node]store.Cursor{}}
+	var walk func(c *RefCursor, a *adoc.Node)
+	walk = func(c *RefCursor, a *adoc.Node) {
+		m.ToA[c] = a
+		m.ToC[a] = c
+		for i, x := range c.ns {
+			walk(x, a.NSNodes[i])
+		}
+		for i, x := range c.attrs {
+			walk(x, a.Attrs[i])
+		}
+		for i, x := range c.children {
+			walk(x, a.Children[i])
+		}
+	}
+	walk(root, d.Root)
+	m.Order = make([]store.Cursor, len(d.All))
+	for i, a := range d.All {
+		m.Order[i] = m.ToC[a]
+	}
+	return m, nil
+}
